@@ -116,6 +116,57 @@ Section VerifyBlock.
 End VerifyBlock.
 
 (* ------------------------------------------------------------------------
+   The fast-sync path, consensus/consensus.go processBlock (with
+   CommitVoteList.toVoteList and the height vote set): the list is converted
+   item by item — an item that does not recover to a validator refuses the whole
+   list — the votes are put into the precommit vote set of the list's round
+   (one slot per validator, so a second item of a signer does not count twice),
+   the set must hold more than two thirds (`max > len(msgs)*2/3`) and the
+   part-set id the votes carry must be the id of the block's own part set.
+   Modelled for a node that holds no earlier precommit of that round. *)
+Section FastSync.
+  Context {sigT addrT : Type}.
+  Variable addr_eqb : addrT -> addrT -> bool.
+  Variable recover : vote_msg -> sigT -> option addrT.
+
+  Fixpoint indices (mk : Z -> vote_msg) (vals : list addrT) (items : list (Z * sigT))
+    : option (list nat) :=
+    match items with
+    | [] => Some []
+    | it :: r =>
+        match signer_index addr_eqb recover mk vals it, indices mk vals r with
+        | Some i, Some l => Some (i :: l)
+        | _, _ => None
+        end
+    end.
+
+  Fixpoint dedup (l : list nat) : list nat :=
+    match l with
+    | [] => []
+    | x :: r => if existsb (Nat.eqb x) r then dedup r else x :: dedup r
+    end.
+
+  (* PartSetIDAndAppData.ID(): the low 16 bits of the count word, and the hash *)
+  Definition ps_id (ps : psid) : option (N * bytes) :=
+    option_map (fun p => (N.land (fst p) 65535, snd p)) ps.
+
+  Definition ps_id_matches (ps : psid) (real : N * bytes) : bool :=
+    match ps_id ps with
+    | Some (c, h) => (c =? fst real) && bytes_eqb h (snd real)
+    | None => false
+    end.
+
+  (* true = br.Consume(), false = br.Reject() *)
+  Definition fs_accept (height round : Z) (bid : bytes) (ps : psid) (real : N * bytes)
+             (vals : list addrT) (items : list (Z * sigT)) : bool :=
+    match indices (item_msg height round bid ps) vals items with
+    | None => false
+    | Some idxs =>
+        (Nat.ltb (length vals * 2 / 3) (length (dedup idxs))) && ps_id_matches ps real
+    end.
+End FastSync.
+
+(* ------------------------------------------------------------------------
    Ground truth supplied by the harness, which made every key and signature:
    a signature is a correct signature of key k over the message m (Signed k m),
    or a byte string that recovers to an address nobody owns (Junk), or one from
@@ -157,6 +208,10 @@ Definition gt_recover (m : vote_msg) (s : gsig) : option gaddr :=
   end.
 
 (* validator lists are given as lists of key numbers *)
+Definition gt_fs_accept (height round : Z) (bid : bytes) (ps : psid) (real : N * bytes)
+           (vals : list nat) (items : list (Z * gsig)) : bool :=
+  fs_accept gaddr_eqb gt_recover height round bid ps real (map Key vals) items.
+
 Definition gt_verify_block (height round : Z) (bid : bytes) (ps : psid)
            (vals : option (list nat)) (items : list (Z * gsig)) : outcome :=
   verify_block gaddr_eqb gt_recover height round bid ps (option_map (map Key) vals) items.
